@@ -119,7 +119,16 @@ def accAnswer (n : Nat) (t : Ty) (chunks : List (List Byte)) : String :=
       | .deserError rem => go fuel a' rem (("E rem=" ++ hexOfBytes rem ++ b) :: acc)
       | .success d rem => go fuel a' rem (("S " ++ valToStr d ++ " rem=" ++ hexOfBytes rem ++ b) :: acc)
       | .panic => (a', "panic" :: acc)
-  let (_, out) := chunks.foldl (fun (st : Acc × List String) c => go (2 * c.length + 2) st.1 c st.2) (Acc.new n, [])
+  -- an empty chunk (a read that returned no bytes) is handed to feed exactly once
+  let one (st : Acc × List String) (c : List Byte) : Acc × List String :=
+    if c.isEmpty then
+      let (r, a') := st.1.feed decF []
+      let b := " buf=" ++ hexOfBytes a'.buf
+      match r with
+      | .consumed => (a', ("C" ++ b) :: st.2)
+      | _ => (a', "empty-chunk-not-consumed" :: st.2)
+    else go (2 * c.length + 2) st.1 c st.2
+  let (_, out) := chunks.foldl one (Acc.new n, [])
   "acc" ++ String.join (out.reverse.map (" ; " ++ ·))
 
 def dynErrName : DynErr → String
@@ -192,6 +201,11 @@ def handle (line : String) : String :=
         let b := hashTyPathOwned p (conv sc)
         if a = b then "ok " ++ hexOfBytes a else "FAIL model hashers disagree"
       | _, _ => "bad-op"
+    | "keyty", [.atom _idx, .atom p, sx] =>
+      -- Key::for_path::<T>(path) with T::SCHEMA = sx: the same documented stream
+      match bytesOfHex p, schemaOfSexp sx with
+      | some p, some sc => "ok " ++ hexOfBytes (hashTyPath p sc)
+      | _, _ => "bad-op"
     | "keydiff", [.atom _kind, .atom p, s1, s2] =>
       match bytesOfHex p, schemaOfSexp s1, schemaOfSexp s2 with
       | some p, some s1, some s2 =>
@@ -215,7 +229,11 @@ def handle (line : String) : String :=
       | none => "bad-op"
     | "fmt", [sx] =>
       match schemaOfSexp sx with
-      | some sc => "ok " ++ hexOfBytes (toPseudocode sc)
+      | some sc => "ok " ++ hexOfBytes (toPseudocode sc) ++ " prim=" ++ (if isPrim sc then "1" else "0")
+      | none => "bad-op"
+    | "fnvraw", [.atom h] =>
+      match bytesOfHex h with
+      | some bs => "ok " ++ hexOfBytes (Spec.le64 (Spec.fnv1a bs))
       | none => "bad-op"
     | "discover", [sx] =>
       match schemaOfSexp sx with
